@@ -36,6 +36,11 @@ FORMS = {
     "scalar-k1-fd": dict(form="scalar", k=1, sizes=(2, 1), E=(0, 1, 3), hermitian=True, fd=(0,)),
     "implicit-k1": dict(form="implicit", k=1, sizes=(2,), E=(0, 1, 3, 7), hermitian=True),
     "block-k1-121": dict(form="block", k=1, sizes=(1, 2, 1), E=(0, 1, 3, 7), hermitian=True),
+    # Hamiltonians with absent (zero) terms at orders that get requested
+    "scalar-k1-gaps": dict(form="scalar", k=1, sizes=(2, 1), E=(0, 1, 3), hermitian=True, zero_orders=[[2]]),
+    "scalar-k2-gaps": dict(form="scalar", k=2, sizes=(1, 2), E=(0, 1, 3), hermitian=True, zero_orders=[[1, 1], [0, 2]]),
+    "implicit-k1-gaps": dict(form="implicit", k=1, sizes=(1,), E=(0, 1, 3, 7), hermitian=True, zero_orders=[[1], [3]]),
+    "block-k1-gaps": dict(form="block", k=1, sizes=(2, 1), E=(0, 1, 3), hermitian=True, zero_orders=[[2]]),
 }
 
 
@@ -68,7 +73,7 @@ class LazyWorld(World):
             if not any(order):
                 d = np.diag(np.array(E, float))
                 return d
-            if sum(order) > 4:
+            if sum(order) > 4 or list(order) in spec.get("zero_orders", []):
                 return None
             bump = bump_not_leq is not None and not all(o <= b for o, b in zip(order, bump_not_leq))
             return term(spec, order, bump)
